@@ -621,12 +621,13 @@ def u3_reject_before_add(C, rep, rid, which=("conflict", "expiry", "total")):
     F, X, A = C.F, C.X, C.A
     H = handler(C)
     b = H.body
-    rep.anchor(rid, "fail-requester calls in the handler", len(H.fail_calls), 3, fn=H.fn)
+    rep.anchor(rid, "fail-requester calls in the handler", len(H.fail_calls), 1, fn=H.fn)
     rep.anchor(rid, "add-listener call in the handler", len(H.add_calls), 1, fn=H.fn)
     if not H.add_calls:
         return
     add = H.add_calls[0]
     found = {}
+    nrej = 0
     for f in H.fail_calls:
         ok = f.bb not in b.reach_after([add.bb]) and b.dominates(f.bb, add.bb) is False or f.bb not in b.reach_after([add.bb])
         rep.ob(rid, ok, H.fn, "fail request precedes add", where=f.loc, how="not reachable from the add-listener call",
@@ -637,14 +638,28 @@ def u3_reject_before_add(C, rep, rid, which=("conflict", "expiry", "total")):
         ok2 = add.bb in b.reach_after([f.bb])
         rep.ob(rid, ok2, H.fn, "rejected HTLC is still registered", where=f.loc, how="add-listener reachable after the fail request",
                detail="" if ok2 else "a rejected HTLC is never registered: it would not be answered")
-        kind = classify_gate(C, b, f)
-        found.setdefault(kind[0], []).append((f, kind))
+        # one rejection per place where the response handed to the fail request is made: three `fail(resp)` calls each
+        # under its own condition, or one `if let Some(resp) = first_violation(..) { fail(resp) }` whose three
+        # responses are built under the three conditions, are the same three rejections
+        sites = []
+        for e, _vf, _cf, wh in mm.def_alternatives(F, X, b, f.args[-1]):
+            sbb = wh[1] if wh and wh[0] == b.cdef and wh[1] is not None else f.bb
+            sites.append((e, sbb))
+        if not sites:
+            sites = [(strip(X.operand(b, f.args[-1])), f.bb)]
+        for e, sbb in sites:
+            nrej += 1
+            kind = classify_gate(C, b, sbb)
+            if kind[0] == "?" and sbb != f.bb:
+                kind = classify_gate(C, b, f.bb)
+            found.setdefault(kind[0], []).append((f, kind, e, sbb))
+    rep.anchor(rid, "rejections (fail request x place where its response is made)", nrej, 3, fn=H.fn)
     for k in which:
         gs = found.get(k, [])
         rep.ob(rid, len(gs) >= 1, H.fn, "gate `%s` exists" % k, where=gs[0][0].loc if gs else "", how="%d" % len(gs),
                detail="" if gs else "the %s gate is missing: no fail request is guarded by that condition" % k)
-        for f, kind in gs:
-            resp = mm.eval_response(F, X, strip(X.operand(b, f.args[-1])), C.enc_table)
+        for f, kind, e, sbb in gs:
+            resp = mm.eval_response(F, X, e, C.enc_table)
             if k == "conflict":
                 ok = all(v[0] == "Fail" and v[2] == [("bytes", [0x20, 25])] for v in resp)
                 rep.ob(rid, ok, H.fn, "conflicting info => temporary_trampoline_failure", where=f.loc, how=str([v[:3] for v in resp])[:100], detail="" if ok else "conflict gate answers %s" % [v[:3] for v in resp])
@@ -658,7 +673,7 @@ def u3_reject_before_add(C, rep, rid, which=("conflict", "expiry", "total")):
                 rep.ob(rid, ok and pl_ok, H.fn, "%s gate => fee_or_expiry_insufficient(configured policy)" % k, where=f.loc, how="0x201a + params.routing_policy",
                        detail="" if ok and pl_ok else "%s gate answers %s" % (k, [v[:3] for v in resp]))
     unknown = found.get("?", [])
-    for f, kind in unknown:
+    for f, kind, _e, _sbb in unknown:
         rep.ob(rid, False, H.fn, "unrecognised rejection", where=f.loc, detail="a fail request at %s is guarded by an unrecognised condition (%s)" % (f.loc, kind[1]))
     # fail-requester: sets the flag before its send (latch) - and readiness requires the flag false
     li = latch_info(C)
@@ -679,10 +694,16 @@ def u3_reject_before_add(C, rep, rid, which=("conflict", "expiry", "total")):
     rep.anchor(rid, "ready send site", len(rd), 1)
 
 
-def classify_gate(C, b, f):
-    """which condition guards this fail-requester call"""
+def classify_gate(C, b, fbb):
+    """which condition guards the rejection made at block fbb.  Every recognised gate condition that is forced on the way
+    is classified with its polarity; with a chain of early returns a later rejection is also dominated by the *passed*
+    earlier gates - the rejection belongs to the innermost gate taken in its rejecting direction."""
     X = C.X
-    for c, truth in lib.dominating_conditions(b, f.bb):
+    if not isinstance(fbb, int):
+        fbb = fbb.bb
+    rejecting = []
+    odd = []
+    for c, truth in lib.dominating_conditions(b, fbb):
         if c.kind == "call":
             n = c.call.name
             if n in ("std::cmp::PartialEq::ne", "std::cmp::PartialEq::eq") and "messages::TrampolineInfo" in c.call.full:
@@ -696,24 +717,36 @@ def classify_gate(C, b, f):
                 def is_new(y):
                     return not is_entry(y) and any(z[0] == "call" and z[4].t.get("rty") in NM.of(C.F).check for z in walk(y))
                 both = (is_entry(xa) and is_new(xb)) or (is_entry(xb) and is_new(xa))
-                if want and both:
-                    return ("conflict", "trampoline != payment_state.trampoline")
-                return ("?", "TrampolineInfo comparison with unexpected polarity/operands")
-            if n == "messages::TrampolineRoutingPolicy::fee_sufficient" and not truth:
+                if both and want:
+                    rejecting.append((len(b.dom.get(c.bb, ())), ("conflict", "trampoline != payment_state.trampoline")))
+                elif not both:
+                    odd.append((len(b.dom.get(c.bb, ())), ("?", "TrampolineInfo comparison with unexpected operands")))
+                continue
+            if n == "messages::TrampolineRoutingPolicy::fee_sufficient":
+                if truth:
+                    continue                       # gate passed
                 ea = strip(X.operand(b, c.call.args[1]))
                 eb = strip(X.operand(b, c.call.args[2]))
                 sa, sb = show(ea), show(eb)
-                ok_a = all(("total_msat" in show(a2)) or ("forward_msat" in show(a2)) for a2 in alts(ea)) and "total_msat" in sa
+                # the compared amount is the onion's declared total, falling back to the onion's forward amount - nothing else
+                # (accessors / helpers are looked through: `req.total_msat()` is what it returns)
+                e1 = strip(mm.inline_pure(C.F, X, ea))
+                fnames = {x[1] for x in walk(e1) if x[0] == "field" and x[1] != "0"}
+                ok_a = "total_msat" in fnames and fnames <= {"total_msat", "forward_msat", "onion"} and not any(x[0] == "call" and x[1].startswith("core::num::") for x in walk(e1))
+                sa = show(e1)
                 ok_b = "amount_msat" in sb and "trampoline" in sb.lower() or "TrampolineInfo::amount_msat" in sb
                 ok_p = "routing_policy" in show(strip(X.operand(b, c.call.args[0])))
                 if ok_a and ok_b and ok_p:
-                    return ("total", "!fee_sufficient(total_msat|forward_msat, trampoline.amount_msat)")
-                return ("?", "fee_sufficient(%s, %s)" % (sa[:40], sb[:40]))
+                    rejecting.append((len(b.dom.get(c.bb, ())), ("total", "!fee_sufficient(total_msat|forward_msat, trampoline.amount_msat)")))
+                else:
+                    rejecting.append((len(b.dom.get(c.bb, ())), ("?", "fee_sufficient(%s, %s)" % (sa[:40], sb[:40]))))
+                continue
         if c.kind == "cmp":
             ea = strip(X.operand(b, c.a))
             eb = strip(X.operand(b, c.b))
             sa, sb = show(ea), show(eb)
             op = c.op if truth else {"Lt": "Ge", "Le": "Gt", "Gt": "Le", "Ge": "Lt", "Eq": "Ne", "Ne": "Eq"}[c.op]
+
             def widened_field(e, fname, owner_part):
                 x = e
                 for _ in range(4):
@@ -725,12 +758,25 @@ def classify_gate(C, b, f):
                     else:
                         break
                 return x[0] == "field" and x[1] == fname and owner_part in show(x)
-            if widened_field(ea, "cltv_expiry_relative", "Htlc") and widened_field(eb, "cltv_expiry_delta", "routing_policy") and op == "Lt":
-                return ("expiry", "cltv_expiry_relative < policy delta")
-            if widened_field(eb, "cltv_expiry_relative", "Htlc") and widened_field(ea, "cltv_expiry_delta", "routing_policy") and op == "Gt":
-                return ("expiry", "policy delta > cltv_expiry_relative")
+            d = len(b.dom.get(c.bb, ()))
+            if widened_field(ea, "cltv_expiry_relative", "Htlc") and widened_field(eb, "cltv_expiry_delta", "routing_policy"):
+                if op == "Lt":
+                    rejecting.append((d, ("expiry", "cltv_expiry_relative < policy delta")))
+                elif op != "Ge":
+                    rejecting.append((d, ("?", "relative expiry compared as %s %s %s" % (sa[:40], op, sb[:40]))))
+                continue
+            if widened_field(eb, "cltv_expiry_relative", "Htlc") and widened_field(ea, "cltv_expiry_delta", "routing_policy"):
+                if op == "Gt":
+                    rejecting.append((d, ("expiry", "policy delta > cltv_expiry_relative")))
+                elif op != "Le":
+                    rejecting.append((d, ("?", "relative expiry compared as %s %s %s" % (sa[:40], op, sb[:40]))))
+                continue
             if "cltv_expiry_relative" in sa + sb:
-                return ("?", "relative expiry compared as %s %s %s" % (sa[:40], op, sb[:40]))
+                rejecting.append((d, ("?", "relative expiry compared as %s %s %s" % (sa[:40], op, sb[:40]))))
+    if rejecting:
+        return sorted(rejecting, key=lambda x: x[0])[-1][1]
+    if odd:
+        return odd[-1][1]
     return ("?", "no recognised guard")
 
 
